@@ -8,13 +8,6 @@ Import ListNotations.
 Open Scope string_scope.
 Open Scope list_scope.
 
-(* the first-filter dictionary of a generation with state machine / class name X, namespace NS, author a, group g, brief b
-   (the two dates are not used by these files) *)
-Definition dict0 : list (string * string) :=
-  [(stag "__TAG_SM_NAME_UPPER__", "X"); (stag "__TAG_SM_NAME_SMALL_CAMEL__", "x"); (stag "__TAG_SM_NAME_SNAKE__", "x"); (stag "__TAG_SM_NAME__", "X");
-   (stag "__TAG_CLASS_NAME__", "X"); (stag "__TAG_CLASS_NAME_SNAKE__", "x"); (stag "__TAG_PyIFGen_NAME__", "Transition Table"); (stag "__TAG_NAMESPACE__", "NS");
-   (stag "__TAG_AUTHOR__", "a"); (stag "__TAG_GROUP__", "g"); (stag "__TAG_BRIEF__", "b"); (stag "__TAG_DECLSPEC_DLL_EXPORT__", "")].
-
 Lemma tagfree_no_generator_tag s : tagfree s = true -> no_generator_tag s = true.
 Proof.
   unfold no_generator_tag, tags_of.
@@ -47,3 +40,10 @@ Section Shipped.
     - apply (forallb_impl tagfree); [exact tagfree_no_generator_tag|]. apply ref_lines_tagfree; assumption.
   Qed.
 End Shipped.
+
+Lemma shipped_output_flat lines l0 t m (a : usertags) :
+  shipped16 dict0 lines = Some (l0, t) ->
+  wf_elements16 t (elements_of_model m) = true ->
+  generate_file m dict0 a lines = Some (ref16 (elements_of_model m) t)
+  /\ forallb no_generator_tag (flat_map (ref_item16 (elements_of_model m)) t) = true.
+Proof. intros Hs Hw. exact (shipped_output lines l0 t Hs m a Hw). Qed.
